@@ -23,6 +23,7 @@ package input
 import (
 	"errors"
 	"fmt"
+	"strings"
 
 	"github.com/gontainer/gontainer-helpers/v3/grouperror"
 	"golang.org/x/mod/semver"
@@ -65,8 +66,14 @@ func (v *VersionValidator) ValidateVersion(i Input) (err error) {
 		err = grouperror.Prefix(fmt.Sprintf("version: current: %s, given: %s: ", v.version, *i.Version), err)
 	}()
 
+	// Version.UnmarshalYAML stores the version without the leading "v", package semver requires it
+	givenVer := string(*i.Version)
+	if !strings.HasPrefix(givenVer, "v") {
+		givenVer = "v" + givenVer
+	}
+
 	curr := semver.MajorMinor(v.version) + ".0"
-	given := semver.MajorMinor(string(*i.Version)) + ".0"
+	given := semver.MajorMinor(givenVer) + ".0"
 
 	if semver.Major(v.version) == "v0" {
 		if curr != given {
@@ -75,7 +82,7 @@ func (v *VersionValidator) ValidateVersion(i Input) (err error) {
 		return
 	}
 
-	if semver.Major(v.version) != semver.Major(string(*i.Version)) {
+	if semver.Major(v.version) != semver.Major(givenVer) {
 		return errors.New("incompatible versions")
 	}
 
